@@ -290,14 +290,15 @@ def eci_search(binary, budget_s):
 
 
 SEARCH = {
-    'V-DEC': [('dec', 60)],
+    'V-DEC': [('dec', 40)],
     'V-ECI': [('eci', 30), ('dec_str', 30)],
-    'V-ENC': [('rt', 90)],
-    'V-ASCII': [('rt', 90)],
-    'V-X12': [('rt', 90)],
-    'V-B256': [('rt', 90)],
-    'V-DRV': [('rt', 90)],
+    'V-ENC': [('rt', 45)],
+    'V-ASCII': [('rt', 45)],
+    'V-X12': [('rt', 45)],
+    'V-B256': [('rt', 45)],
+    'V-DRV': [('rt', 45)],
 }
+_CACHE = {}
 
 
 def find_witness(verif, unit):
@@ -308,6 +309,10 @@ def find_witness(verif, unit):
     if b is None:
         return None
     for kind, budget in plan:
+        if kind in _CACHE:
+            if _CACHE[kind]:
+                return dict(_CACHE[kind])
+            continue
         try:
             if kind == 'dec':
                 w = dec_search(b, budget)
@@ -321,6 +326,7 @@ def find_witness(verif, unit):
                 w = None
         except Exception as e:   # a crashed search is not a verdict
             w = None
+        _CACHE[kind] = w
         if w:
             w['search'] = kind
             return w
